@@ -233,3 +233,141 @@ Section Loop.
                 (tie || snd (gain_small new_mod md thr) || tie2)%bool N HL2); [lia | lia | exact Hsf | exact Hrec].
   Qed.
 End Loop.
+
+(* ---------------- the entry points ---------------- *)
+Section Entry.
+  Context {T A : Type}.
+  Variable teqb tltb : T -> T -> bool.
+  Hypothesis teqb_spec : forall x y, teqb x y = true <-> x = y.
+  Hypothesis tltb_asym : forall x y, tltb x y = true -> tltb y x = false.
+  Hypothesis tltb_total : forall x y, tltb x y = false -> tltb y x = false -> x = y.
+
+  (* the domain: with weighted = true every weight is a non-negative real *)
+  Definition weights_ok (g : gstate T A) (weighted : bool) : Prop :=
+    weighted = true -> forall e, In e (get_all_edges g) -> exists z, ew e = Some z /\ (0 <= z)%Z.
+
+  (* what the first working graph and the constant m are *)
+  Lemma first_graph : forall (g : gstate T A) weighted gu m,
+    WF teqb tltb g -> weights_ok g weighted ->
+    convert_graph teqb tltb g weighted (node_map_of tltb g) = Ok gu ->
+    size_q gu weighted = Ok m ->
+    let N := length (nodes_vec g) in
+    LevelGraph gu N /\ Faithful (wedges gu) gu N /\ AttrOk (seq 0 N) (seq 0 N) (attr_of gu) /\
+    m == total_w (wedges gu) /\ 0 <= m /\
+    map_node_names_to_hashsets gu = map (fun k => [k]) (seq 0 N) /\
+    (forall c p, nth_error (map (fun k => [k]) (seq 0 N)) c = Some p ->
+       NoDup p /\ forall x, In x p <-> In x (attr_of gu c)).
+  Proof.
+    intros g weighted gu m W Hwok Hgu Hsz N.
+    destruct (convert_graph_struct teqb tltb teqb_spec tltb_asym tltb_total g weighted gu W Hgu)
+      as [Wu [Hperm [Hattr [Hmul [_ [Hone Hnn]]]]]].
+    fold N in Hperm, Hattr.
+    assert (Hw : forall e, In e (get_all_edges gu) -> exists z, ew e = Some z /\ (0 <= z)%Z).
+    { destruct weighted.
+      - apply Hnn. apply Hwok. reflexivity.
+      - intros e He. exists 1%Z. split; [apply Hone; [reflexivity | exact He] | lia]. }
+    assert (Hdis : forall u v x, In u (seq 0 N) -> In v (seq 0 N) -> In x (attr_of gu u) -> In x (attr_of gu v) -> u = v).
+    { intros u v x Hu Hv Hxu Hxv. apply in_seq in Hu. apply in_seq in Hv.
+      rewrite Hattr in Hxu by lia. rewrite Hattr in Hxv by lia.
+      destruct Hxu as [Hxu|[]]. destruct Hxv as [Hxv|[]]. congruence. }
+    assert (LG : LevelGraph gu N) by (constructor; assumption).
+    split; [exact LG|]. split; [apply Faithful_base; exact Hattr|]. split; [|split; [|split; [|split]]].
+    - constructor.
+      + intros u Hu. apply in_seq in Hu. rewrite Hattr by lia. constructor; [intros [] | constructor].
+      + intros u Hu. apply in_seq in Hu. rewrite Hattr by lia. discriminate.
+      + exact Hdis.
+      + intro x. split.
+        * intro Hx. exists x. split; [exact Hx|]. apply in_seq in Hx. rewrite Hattr by lia. left. reflexivity.
+        * intros [u [Hu Hx]]. apply in_seq in Hu. rewrite Hattr in Hx by lia. destruct Hx as [Hx|[]]. subst x. apply in_seq. lia.
+    - destruct weighted.
+      + apply size_q_weighted; [|exact Hsz]. intros e He. destruct (Hw e He) as [z [Hz _]]. eauto.
+      + apply size_q_unweighted; [|exact Hsz]. intros e He. apply Hone; [reflexivity | exact He].
+    - assert (Hmt : m == total_w (wedges gu)).
+      { destruct weighted.
+        + apply size_q_weighted; [|exact Hsz]. intros e He. destruct (Hw e He) as [z [Hz _]]. eauto.
+        + apply size_q_unweighted; [|exact Hsz]. intros e He. apply Hone; [reflexivity | exact He]. }
+      rewrite Hmt. apply total_w_nonneg. apply (LG_nonneg gu N LG).
+    - unfold map_node_names_to_hashsets. fold (gnames gu). rewrite (sort_by_perm_seq (gnames gu) N Hperm). reflexivity.
+    - intros c p Hp. rewrite nth_error_map_seq in Hp. destruct (Nat.ltb c N) eqn:E; [|discriminate].
+      inversion Hp. subst p. apply Nat.ltb_lt in E. rewrite Hattr by exact E.
+      split; [constructor; [intros [] | constructor] | intro x; reflexivity].
+  Qed.
+
+  (* Monotonicity: on the first working graph the modularity of the first level is at least that
+     of the singletons, and it never decreases from one level to the next. *)
+  Theorem louvain_levels_monotone :
+    forall lf sf (g : gstate T A) weighted res thr perms ls tie,
+      WF teqb tltb g -> weights_ok g weighted -> 0 <= res ->
+      louvain_partitions_t teqb tltb lf sf g weighted res thr perms = Ok (ls, tie) ->
+      exists gu levels first rest,
+        convert_graph teqb tltb g weighted (node_map_of tltb g) = Ok gu /\
+        convert_back (node_map_of tltb g) levels = Ok ls /\ levels = first :: rest /\
+        levels_ok (seq 0 (length (nodes_vec g))) levels /\
+        let Qm := newman Nat.eqb (directed (sp gu)) (wedges gu) res in
+        Qm (map (fun k => [k]) (seq 0 (length (nodes_vec g)))) <= Qm first /\
+        chain (fun a b => Qm a <= Qm b) levels.
+  Proof.
+    intros lf sf g weighted res thr perms ls tie W Hwok Hres H. unfold louvain_partitions_t in H.
+    apply bind_ok in H. destruct H as [gu [Hgu H]].
+    apply bind_ok in H. destruct H as [mod0 [_ H]].
+    apply bind_ok in H. destruct H as [m [Hsz H]].
+    apply bind_ok in H. destruct H as [[[[p1 i1] imp1] tie1] [Hc H]].
+    apply bind_ok in H. destruct H as [[levels tie0] [Hl H]].
+    apply bind_ok in H. destruct H as [ls0 [Hcb H]]. inversion H. subst ls0 tie0. clear H.
+    destruct (first_graph g weighted gu m W Hwok Hgu Hsz) as [LG [HF [AO [Hmt [Hmp [Hsing Hstart]]]]]].
+    set (N := length (nodes_vec g)) in *. rewrite Hsing in Hc.
+    assert (HlenS : length (map (fun k : nat => [k]) (seq 0 N)) = N) by (rewrite map_length, seq_length; reflexivity).
+    destruct (compute_one_level_struct sf gu m _ res perms N (seq 0 N) p1 i1 imp1 tie1 (lg_names gu N LG) AO HlenS Hstart Hc)
+      as [HPI [Hlv _]].
+    assert (HL : LInv (wedges gu) (directed (sp gu)) (seq 0 N) gu N p1 i1) by (constructor; [exact LG | reflexivity | exact HF | exact AO | exact HPI]).
+    pose proof (level_result_ge_singletons_newman gu N LG m res Hmp Hres sf _ perms p1 i1 imp1 tie1 Hmt HlenS Hstart Hc) as Hge.
+    rewrite <- (LInv_Qm (wedges gu) (directed (sp gu)) (seq 0 N) res gu N p1 i1 HL) in Hge.
+    destruct (level_loop_monotone (wedges gu) (directed (sp gu)) (seq 0 N) m res Hmt Hmp Hres
+                lf sf weighted thr perms gu N p1 i1 mod0 [] tie1 levels tie HL) as [Hch [rest Hr]];
+      [cbn; exact I | exact Hl |].
+    cbn [app] in Hr.
+    exists gu, levels, p1, rest. split; [exact Hgu|]. split; [exact Hcb|]. split; [exact Hr|]. split.
+    - apply (level_loop_levels lf sf weighted res thr perms m (seq 0 N) gu N p1 i1 mod0 [] tie1 levels tie
+               (lg_names gu N LG) AO HPI); [constructor | cbn; exact I | exact Hl].
+    - cbn zeta. split; [exact Hge | exact Hch].
+  Qed.
+
+  (* Termination: with one unit of level fuel per node (+1) and N^N units of sweep fuel the model
+     never returns OutOfFuel. *)
+  Theorem louvain_partitions_t_never_out_of_fuel :
+    forall lf sf (g : gstate T A) weighted res thr perms,
+      WF teqb tltb g -> weights_ok g weighted -> 0 <= res ->
+      (length (nodes_vec g) < lf)%nat -> (length (nodes_vec g) ^ length (nodes_vec g) <= sf)%nat ->
+      louvain_partitions_t teqb tltb lf sf g weighted res thr perms <> OutOfFuel.
+  Proof.
+    intros lf sf g weighted res thr perms W Hwok Hres Hlf Hsf H.
+    apply louvain_partitions_t_fuel_cases in H. destruct H as [gu [mod0 [m [Hgu [_ [Hsz Hcase]]]]]].
+    destruct (first_graph g weighted gu m W Hwok Hgu Hsz) as [LG [HF [AO [Hmt [Hmp [Hsing Hstart]]]]]].
+    set (N := length (nodes_vec g)) in *. rewrite Hsing in Hcase.
+    assert (HlenS : length (map (fun k : nat => [k]) (seq 0 N)) = N) by (rewrite map_length, seq_length; reflexivity).
+    destruct Hcase as [Hoof|[p1 [i1 [b [tie1 [Hc Hloop]]]]]].
+    - destruct (compute_one_level_fuel_only_from_sweeps _ _ _ _ _ _ Hoof) as [di [order [_ [Hord _]]]].
+      destruct (level_total gu N LG m res Hmp Hres sf _ perms order HlenS Hstart Hord Hsf) as [p2 [i2 [imp [tie2 [Hc _]]]]].
+      congruence.
+    - destruct (compute_one_level_struct sf gu m _ res perms N (seq 0 N) p1 i1 b tie1 (lg_names gu N LG) AO HlenS Hstart Hc)
+        as [HPI _].
+      assert (HL : LInv (wedges gu) (directed (sp gu)) (seq 0 N) gu N p1 i1) by (constructor; [exact LG | reflexivity | exact HF | exact AO | exact HPI]).
+      pose proof (level_result_length gu N LG m res Hmp Hres sf _ perms p1 i1 b tie1 HlenS Hstart Hc) as Hlen1.
+      apply (level_loop_never_out_of_fuel (wedges gu) (directed (sp gu)) (seq 0 N) m res Hmt Hmp Hres
+               lf sf weighted thr perms gu N p1 i1 mod0 [] tie1 N HL); [lia | exact Hlen1 | exact Hsf | exact Hloop].
+  Qed.
+
+  Corollary louvain_partitions_never_out_of_fuel :
+    forall lf sf (g : gstate T A) weighted res thr perms,
+      WF teqb tltb g -> weights_ok g weighted -> 0 <= res ->
+      (length (nodes_vec g) < lf)%nat -> (length (nodes_vec g) ^ length (nodes_vec g) <= sf)%nat ->
+      louvain_partitions teqb tltb lf sf g weighted res thr perms <> OutOfFuel /\
+      louvain_communities teqb tltb lf sf g weighted res thr perms <> OutOfFuel.
+  Proof.
+    intros lf sf g weighted res thr perms W Hwok Hres Hlf Hsf.
+    pose proof (louvain_partitions_t_never_out_of_fuel lf sf g weighted res thr perms W Hwok Hres Hlf Hsf) as Hn.
+    split; intro H; apply Hn.
+    - apply (louvain_partitions_fuel_inv teqb tltb lf sf g weighted res thr perms H).
+    - apply (louvain_communities_fuel_inv teqb tltb lf sf g weighted res thr perms H).
+  Qed.
+End Entry.
